@@ -251,6 +251,21 @@ def gen(seed, tier):
             cases.append('R %s %s %d %s' % (s['name'], p['name'], len(tup), ' '.join([tok(x, v) for x, v in zip(s['ins'], tup)] + [tok(x, v) for x, v in zip(p['ins'], pin)])))
         covered.add(s['id'])
         covered.add(p['id'])
+    # the one-bool-per-bit alias of PGN 127489 against the parser that returns the two status words: every flag alone, all but one, random
+    fs = [f for f in META['functions'] if f['kind'] == 'S' and f['harness'] and all(b in [x['name'] for x in f['ins']] for b in STATUS1_BITS + STATUS2_BITS)]
+    ps = [f for f in META['functions'] if f['kind'] == 'P' and f['harness'] and f.get('pgn') == 127489 and 'Status1.Status' in [o.get('name') for o in f.get('outs', [])]]
+    for s in fs:
+        names = [x['name'] for x in s['ins']]
+        base = tuples(r, s, 1, thorough)[0]
+        flags = STATUS1_BITS + STATUS2_BITS
+        pats = [[b == f1 for b in flags] for f1 in flags] + [[b != f1 for b in flags] for f1 in flags] + [[r.random() < 0.5 for _ in flags] for _ in range(8)]
+        for p in ps[:2]:
+            for pat in pats:
+                tup = list(base)
+                for b, v in zip(flags, pat):
+                    tup[names.index(b)] = 1 if v else 0
+                pin = parser_in_tuple(r, p, tup, s)
+                cases.append('R %s %s %d %s' % (s['name'], p['name'], len(tup), ' '.join([tok(x, v) for x, v in zip(s['ins'], tup)] + [tok(x, v) for x, v in zip(p['ins'], pin)])))
     for f in META['functions']:
         if f['kind'] == 'S' and f['harness'] and f['id'] not in covered:
             for tup in tuples(r, f, per, thorough):
@@ -392,6 +407,27 @@ LOCAL = {}
 INFO = {'out_of_field_values': {}, 'skipped_out_of_range': 0, 'checked_int': 0, 'checked_scaled': 0, 'checked_na': 0, 'checked_text': 0, 'checked_refusals': 0, 'locality_groups': 0, 'skipped_conditional': 0}
 
 
+# PGN 127489, discrete status 1 (16 bits) and 2 (8 bits): bit k of the status word, in the order of the published field list; the alias
+# that takes one bool per bit must put each flag on its bit (independent of how the library composes the word)
+STATUS1_BITS = ['flagCheckEngine', 'flagOverTemp', 'flagLowOilPress', 'flagLowOilLevel', 'flagLowFuelPress', 'flagLowSystemVoltage', 'flagLowCoolantLevel', 'flagWaterFlow',
+                'flagWaterInFuel', 'flagChargeIndicator', 'flagPreheatIndicator', 'flagHighBoostPress', 'flagRevLimitExceeded', 'flagEgrSystem', 'flagTPS', 'flagEmergencyStopMode']
+STATUS2_BITS = ['flagWarning1', 'flagWarning2', 'flagPowerReduction', 'flagMaintenanceNeeded', 'flagEngineCommError', 'flagSubThrottle', 'flagNeutralStartProtect', 'flagEngineShuttingDown']
+
+
+def flag_status_expect(s, p, sargs, outs):
+    names = [x['name'] for x in s['ins']]
+    if not all(b in names for b in STATUS1_BITS + STATUS2_BITS):
+        return None
+    onames = [o.get('name') for o in p.get('outs', [])]
+    for word, bits in (('Status1.Status', STATUS1_BITS), ('Status2.Status', STATUS2_BITS)):
+        if word in onames and onames.index(word) < len(outs):
+            exp = sum((1 << k) for k, b in enumerate(bits) if sargs[names.index(b)])
+            got = outs[onames.index(word)]
+            if got != 'i%d' % exp:
+                return 'PGN127489.%s.flags:%s with flags %s parsed by %s as %s, expected %d' % (word, s['name'], [b for b in bits if sargs[names.index(b)]], p['name'], got, exp)
+    return None
+
+
 def oracle(case, res):
     t = case.split()
     if res.startswith('crash'):
@@ -411,6 +447,9 @@ def oracle(case, res):
         outs = m.group(7).split()
         pgn = s.get('pgn')
         q = PAIRMAP.get((s['id'], p['id']))
+        fl = flag_status_expect(s, p, sargs, outs)
+        if fl:
+            return fl
         if q is None:
             return None
         if m.group(6) != '1':
